@@ -34,7 +34,7 @@ KfSkip == IOEnv.KFSKIP = "1"
 KF_RealIds(op)       == op[5] = 1 /\ (op[3] # 0 \/ op[4] # 0)                  \* effective ids differ from the real ids (server runs as 0:0)
 KF_SockDirOwner(t, op) == t = 2 /\ op[7] = 0 /\ op[8] = 1 /\ <<op[9], op[10]>> # <<op[3], op[4]>>
 KF_CreateMode(op)    == op[7] = 0 /\ op[8] = 1 /\ ~SubMode(OwnerOnly, op[11])
-KF(t, op) == KF_RealIds(op) \/ KF_SockDirOwner(t, op) \/ KF_CreateMode(op)
+KF(t, op) == (IOEnv.KF1 = "1" /\ KF_RealIds(op)) \/ (IOEnv.KF2 = "1" /\ KF_SockDirOwner(t, op)) \/ (IOEnv.KF3 = "1" /\ KF_CreateMode(op))
 
 Family(op) ==
   \/ Full
